@@ -96,7 +96,17 @@ try:
     psi_c = numpy.array([0.6, 0.64, 0.48], dtype=complex)
     psi_c /= numpy.linalg.norm(psi_c)
     for L_ in (2, 4, 6):
-        ev_ = numpy.array(StateVectorPropagator(ta_c, Hc_).propagate(StateVector(data=psi_c.copy()), L=L_).data)
+        svp_ = StateVectorPropagator(ta_c, Hc_)
+        ev_ = numpy.array(svp_.propagate(StateVector(data=psi_c.copy()), L=L_).data)
+        # the same with a refined internal step: at least as close to the exact dynamics
+        svr_ = StateVectorPropagator(ta_c, Hc_)
+        svr_.setDtRefinement(3)
+        evr_ = numpy.array(svr_.propagate(StateVector(data=psi_c.copy()), L=L_).data)
+        import scipy.linalg as _sl2
+        exact_ = numpy.array([_sl2.expm(-1j * Hcd * t__) @ psi_c for t__ in ta_c.data])
+        if abs(evr_ - exact_).max() > 4 * ta_c.length * (abs(Hcd).sum(axis=1).max() * 0.2) ** (L_ + 1) / math.factorial(L_ + 1):
+            bad.append("closed system, order %d, internal step refined 3 times: state vector deviates from exp(-iHt) psi0 by %.3e"
+                       % (L_, abs(evr_ - exact_).max()))
         r0_ = qr.ReducedDensityMatrix(data=numpy.outer(psi_c, psi_c.conj()))
         rt_ = numpy.array(qr.ReducedDensityMatrixPropagator(ta_c, Hc_).propagate(r0_, method="short-exp-%d" % L_).data)
         bound_ = 4 * ta_c.length * (abs(Hcd).sum(axis=1).max() * 0.2) ** (L_ + 1) / math.factorial(L_ + 1)
@@ -134,6 +144,28 @@ try:
     ev.convert_to_RWA(Hr)
     if abs(numpy.array(ev.data) - dat).max() > 1e-10:
         bad.append("convert_from_RWA followed by convert_to_RWA is not the identity: max deviation %.3e" % abs(numpy.array(ev.data) - dat).max())
+    # whole dynamics: propagated with a rotating-wave Hamiltonian and converted back = laboratory-frame dynamics
+    import scipy.linalg as _sl
+    Hld = numpy.array(Hr.data)          # the laboratory-frame Hamiltonian (the rotating-wave reference is kept aside)
+    for start_ in (0.0, 7.3):
+        tax_ = qr.TimeAxis(start_, 100, 0.2)
+        rr_ = qr.ReducedDensityMatrix(dim=3)
+        rr_.data[:, :] = numpy.array([[0.3, 0.2, 0.1j], [0.2, 0.5, 0.05], [-0.1j, 0.05, 0.2]])
+        ev_ = qr.ReducedDensityMatrixPropagator(tax_, Hr).propagate(rr_)
+        ev_.convert_from_RWA(Hr)
+        dev_ = max(abs(ev_.data[i_] - _sl.expm(-1j * Hld * (t_ - start_)) @ numpy.array(rr_.data) @ _sl.expm(1j * Hld * (t_ - start_))).max()
+                   for i_, t_ in enumerate(tax_.data))
+        if dev_ > 1e-6:
+            bad.append("density matrix propagated in the rotating frame and converted back differs from the laboratory-frame dynamics by %.3e"
+                       "%s" % (dev_, " on a time axis that does not start at zero" if start_ else ""))
+        p0_ = numpy.array([0.5, 0.7, 0.5099], dtype=complex)
+        p0_ /= numpy.linalg.norm(p0_)
+        sv_ = StateVectorPropagator(tax_, Hr).propagate(StateVector(data=p0_.copy()))
+        sv_.convert_from_RWA(Hr)
+        dev_ = max(abs(numpy.array(sv_.data[i_]) - _sl.expm(-1j * Hld * (t_ - start_)) @ p0_).max() for i_, t_ in enumerate(tax_.data))
+        if dev_ > 1e-6:
+            bad.append("state vector propagated in the rotating frame and converted back differs from the laboratory-frame dynamics by %.3e"
+                       "%s" % (dev_, " on a time axis that does not start at zero" if start_ else ""))
 except Exception as e:      # noqa
     bad.append("rotating-frame conversion raised %s: %s" % (type(e).__name__, str(e)[:120]))
 
